@@ -218,6 +218,8 @@ TARGETED_PATTERNS = [
     "^a\\x2ab$", "^a\\x2bb$", "^a\\x3fb$", "^a\\x7cb$", "^a\\x2eb$", "^\\x28a\\x29$",
     "^[\\x2d\\x5d]$", "^[a\\x2dz]$", "^\\x5b$", "^\\x5cd$", "^a\\x24$", "^\\x5ea$",
     "^a\\\\x2ab$", "^a\\\\xZZb$", "^\\\\x41$",
+    "^[a-zA-Z\\xC0-\\xD6\\xD8-\\xF6\\xF8-\\xFF]+$", "^a\\xE9b$", "^\\xe9\\xC9$", "^[\\xAa-\\xfF]$",
+    "^a\\x4Ab$", "^\\u00e9\\xC9$",
     "^a\\$b$", "^a\\^b$", "^a\\.b$", "^a\\*\\+\\?b$", "^\\(a\\)\\[b\\]$", "^a\\\\b$", "^a\\#b#$",
     "^\\u00e9+$", "^[\\u00e9-\\u0100]$", "^\\u0100$", "^\\U0001F600$", "^[\\U00010000-\\U0010FFFF]$",
     "^é+$", "^[à-ÿ]$", "^\U0001F600?$",
@@ -323,6 +325,50 @@ def xsd_outcome(chk: harness.Check, run: xschema.XsdRun, base: Dict[str, Any], w
     return False
 
 
+def _escaped_code_points(pattern: str) -> Tuple[set, set]:
+    """Code points below U+0100 written as ``\\xHH`` and as ``\\uHHHH``/``\\UHHHHHHHH``."""
+    as_x: set = set()
+    as_u: set = set()
+    i = 0
+    while i < len(pattern):
+        if pattern[i] != "\\" or i + 1 >= len(pattern):
+            i += 1
+            continue
+        letter = pattern[i + 1]
+        width = {"x": 2, "u": 4, "U": 8}.get(letter)
+        digits = pattern[i + 2:i + 2 + width] if width else ""
+        if width and len(digits) == width and all(c in "0123456789abcdefABCDEF" for c in digits):
+            (as_x if letter == "x" else as_u).add(int(digits, 16))
+            i += 2 + width
+        else:
+            i += 2
+    return as_x, as_u
+
+
+def x_escape_key(key: str, patterns: List[str], xsd_text: str) -> str:
+    """Tell a ``\\xHH`` that the source spelled so and the generator failed to undo.
+
+    The retree renderer writes explicitly encoded characters below U+0100 as ``\\xhh``
+    (known for ``\\u00e9`` in the source); a ``\\xHH`` of the source is replaced by the
+    character itself before parsing and must never reach the schema.
+    """
+    if not key.endswith("escape-not-in-xsd-grammar:\\x"):
+        return key
+    emitted: set = set()
+    for value in xschema.pattern_values(xsd_text):
+        emitted |= _escaped_code_points(value)[0]
+    source_x: set = set()
+    source_u: set = set()
+    for pattern in patterns:
+        as_x, as_u = _escaped_code_points(pattern)
+        source_x |= as_x
+        source_u |= as_u
+    if (emitted - source_u) & source_x:
+        return key + "/x-escape-of-the-source-not-undone"
+    return key
+
+
+
 def schema_validity(chk: harness.Check, validators: xschema.Validators, base: Dict[str, Any],
                     patterns: List[str]) -> bool:
     """Part (a): both processors build the schema; escapes belong to the XSD grammar."""
@@ -344,6 +390,7 @@ def schema_validity(chk: harness.Check, validators: xschema.Validators, base: Di
                 causes = sorted({c for c in (xschema.confirmed_cause_of_invalid_facet(p) for p in patterns) if c})
                 if causes:
                     key = "pattern/" + causes[0]
+            key = x_escape_key(key, patterns, validators.xsd_text)
             chk.violation(
                 "xsd-invalid/" + key,
                 dict(base, refused_by=versions, schema=validators.xsd_text[:6000],
@@ -357,6 +404,7 @@ def schema_validity(chk: harness.Check, validators: xschema.Validators, base: Di
         if key in flagged:
             continue
         flagged.add(key)
+        key = x_escape_key(key, patterns, validators.xsd_text)
         chk.violation(
             "xsd-invalid/" + key,
             dict(base, refused_by=["W3C XSD regex grammar (single/multi-character escapes)"],
